@@ -133,8 +133,12 @@ def latencies(ctx):
                 ob.refute("read-latency:%s" % nm, "%s is delayed by %s cycles, the PHY settings advertise read_latency" % (nm, key(n)), l.loc)
     if not ob.need(set(found) == {"rddata_valid", "rddata"}, "read outputs not found"):
         return
-    if key(found["rddata_valid"][1]) != "banks_read" or key(found["rddata"][1]) != "banks_read_data":
-        ob.refute("read-sources", "rddata_valid / rddata are driven from %s / %s" % (key(found["rddata_valid"][1]), key(found["rddata"][1])), found["rddata"][2].loc)
+    def srcs(t):
+        d_ = v.single_comb_def(t) if isinstance(t, (Obj, Sym)) else t
+        return {x.rsplit(".", 1)[1] for x in support(d_)} if d_ is not None else set()
+    if srcs(found["rddata_valid"][1]) != {"read"} or srcs(found["rddata"][1]) != {"read_data"}:
+        ob.refute("read-sources", "rddata_valid / rddata are driven from %s / %s, expected the OR of the banks' read strobes / read data" %
+                  (key(found["rddata_valid"][1]), key(found["rddata"][1])), found["rddata"][2].loc)
 
 
 def init_image(ctx):
